@@ -18,9 +18,18 @@ import (
 
 // WorkspaceLocker ensures that only one grog build is running per host by
 // managing a lock file in the workspace root directory.
+//
+// The lock is an exclusive advisory flock(2) on the lock file, not the mere
+// existence of the file: the kernel releases it when the holder exits for any
+// reason, so a lock file left behind by a dead process never blocks and no
+// stale-lock detection (reading a PID, probing it, removing the file) is
+// needed. The file still contains the PID of the holder, for diagnostics only.
 type WorkspaceLocker struct {
 	lockFilePath string
 	printOnce    sync.Once
+
+	// lockFile is the open, flock'ed lock file while the lock is held.
+	lockFile *os.File
 }
 
 // NewWorkspaceLocker creates a locker using the global configuration.
@@ -37,39 +46,58 @@ func (wl *WorkspaceLocker) Lock(ctx context.Context) error {
 
 	for {
 		logger.Debugf("Attempting to acquire workspace lock at %s", wl.lockFilePath)
-		file, err := os.OpenFile(wl.lockFilePath, os.O_RDWR|os.O_CREATE|os.O_EXCL, 0644)
-		if err == nil || errors.Is(err, os.ErrNotExist) {
-			_, writeErr := file.Write(pidStr)
-			file.Close()
-			if writeErr != nil {
-				os.Remove(wl.lockFilePath)
-				return writeErr
-			}
-			return nil
-		}
-		if !errors.Is(err, os.ErrExist) {
+		file, err := os.OpenFile(wl.lockFilePath, os.O_RDWR|os.O_CREATE, 0644)
+		if err != nil {
 			return err
 		}
 
-		// Read the lock file which contains the PID of the other process
-		data, readError := os.ReadFile(wl.lockFilePath)
-		if readError != nil {
-			_ = os.Remove(wl.lockFilePath)
-			continue
+		flockErr := syscall.Flock(int(file.Fd()), syscall.LOCK_EX|syscall.LOCK_NB)
+		if flockErr == nil {
+			// We hold the flock on the file we opened. The previous holder may have
+			// removed the path between our open and our flock (and somebody else may
+			// have created a new lock file since), so only a lock on the file that the
+			// path still names counts.
+			lockedInfo, statErr := file.Stat()
+			if statErr != nil {
+				file.Close()
+				return statErr
+			}
+			pathInfo, pathErr := os.Stat(wl.lockFilePath)
+			if pathErr != nil || !os.SameFile(lockedInfo, pathInfo) {
+				file.Close()
+				continue
+			}
+
+			truncateErr := file.Truncate(0)
+			if truncateErr != nil {
+				file.Close()
+				return truncateErr
+			}
+			_, writeErr := file.WriteAt(pidStr, 0)
+			if writeErr != nil {
+				file.Close()
+				return writeErr
+			}
+			wl.lockFile = file
+			return nil
 		}
-		otherPid, conversionError := strconv.Atoi(strings.TrimSpace(string(data)))
-		if conversionError != nil {
-			_ = os.Remove(wl.lockFilePath)
-			continue
-		}
-		if !processRunning(otherPid) {
-			_ = os.Remove(wl.lockFilePath)
-			continue
+
+		file.Close()
+		if !errors.Is(flockErr, syscall.EWOULDBLOCK) {
+			return flockErr
 		}
 
 		if waitPrinted == false {
 			green := color.New(color.FgGreen).SprintFunc()
-			fmt.Printf("%s: Another grog build (PID %d) is running. Waiting..", green("INFO"), otherPid)
+			holder := ""
+			// The PID in the lock file is only used for this message
+			data, readErr := os.ReadFile(wl.lockFilePath)
+			if readErr == nil {
+				if otherPid, convErr := strconv.Atoi(strings.TrimSpace(string(data))); convErr == nil {
+					holder = fmt.Sprintf(" (PID %d)", otherPid)
+				}
+			}
+			fmt.Printf("%s: Another grog build%s is running. Waiting..", green("INFO"), holder)
 			waitPrinted = true
 			// Ensure that we add a newline when we printed anything
 			defer fmt.Println()
@@ -86,17 +114,19 @@ func (wl *WorkspaceLocker) Lock(ctx context.Context) error {
 
 // Unlock releases the workspace lock.
 func (wl *WorkspaceLocker) Unlock() error {
-	return os.Remove(wl.lockFilePath)
-}
+	file := wl.lockFile
+	if file == nil {
+		return errors.New("workspace lock is not held")
+	}
+	wl.lockFile = nil
 
-func processRunning(pid int) bool {
-	if pid <= 0 {
-		return false
+	// Remove the path first and release the flock (close) second: while we still
+	// hold the flock nobody else can acquire this file, and whoever locks it after
+	// the close finds that the path no longer names it and retries on a fresh file.
+	removeErr := os.Remove(wl.lockFilePath)
+	closeErr := file.Close()
+	if removeErr != nil {
+		return removeErr
 	}
-	p, err := os.FindProcess(pid)
-	if err != nil {
-		return false
-	}
-	err = p.Signal(syscall.Signal(0))
-	return err == nil || errors.Is(err, syscall.EPERM)
+	return closeErr
 }
